@@ -96,6 +96,7 @@ def _stream_oracle(rec, cfg, out, name):
         rec["handler_calls"]) or any(e[0] == "none" and not e[2] for e in rec["events"])
 
 
+@core.guard
 def judge(case):
     out = core.Outcome()
     if case.get("watchdog"):
@@ -123,7 +124,14 @@ def _judge_iter(case, out):
 
     cfg = case["cfg"]
     lib = H.lib_exceptions()
-    rdr = RTCMReader(io.BytesIO(case["source"]), validate=cfg["v"], quitonerror=cfg["q"],
+    if case.get("stream_type") == "bytearray":
+        # a file-like object whose read()/readline() return bytearray (recv_into / readinto style)
+        from mc.doubles import TypedStream  # pylint: disable=import-outside-toplevel
+
+        stream = TypedStream(case["source"], None, bytearray, faults=False)
+    else:
+        stream = io.BytesIO(case["source"])
+    rdr = RTCMReader(stream, validate=cfg["v"], quitonerror=cfg["q"],
                      parsed=cfg["p"], errorhandler=(lambda e: None) if cfg.get("h", True) else None)
     n, events = 0, []
     limit = len(case["source"]) + 8
@@ -428,6 +436,10 @@ def _explore_stream(name, source, cfgs, bound, tier, st):
         for cfg in cfgs:
             case0 = {"kind": "iter", "stream": name, "source": source, "cfg": cfg}
             st.add(case0, judge(case0))
+            if cfg.get("h", True):
+                case1 = {"kind": "iter", "stream": name + " (bytearray stream)", "source": source,
+                         "cfg": cfg, "stream_type": "bytearray"}
+                st.add(case1, judge(case1))
 
             def body(ch, cfg=cfg, source=source, name=name):
                 out = core.Outcome()
